@@ -369,3 +369,194 @@ def call_atom(names, value, more=None):
             return value
         return more(e) if more is not None else None
     return atom
+
+
+# ---------------------------------------------------------------------------------------------
+# A method as its callers see it.  Two ways of moving a method's statements elsewhere leave the
+# front end's inliner behind: a decorator whose wrapper runs something before (around) the call
+# of the wrapped method, and a body that only hands the operation on to a helper taking *args.
+# `effective_function` undoes both, so that a rule can ask its path questions (must-pass, "what
+# can run when read_only holds") of the statements that really run.
+# ---------------------------------------------------------------------------------------------
+def _new_quals(ck):
+    q = getattr(ck, "_effects_new_quals", None)
+    if q is None:
+        from ..inline import new_functions
+        try:
+            q = {f.qual for f in new_functions(ck.repo)}
+        except Exception:  # noqa
+            q = set()
+        ck._effects_new_quals = q
+    return q
+
+
+def _synthetic(fi, body, keep_decorators):
+    from ..loader import FuncInfo
+    src = fi.node
+    node = ast.FunctionDef(name=src.name, args=src.args, body=body, decorator_list=keep_decorators, returns=src.returns, type_comment=None)
+    if hasattr(src, "type_params"):
+        node.type_params = []
+    ast.copy_location(node, src)
+    ast.fix_missing_locations(node)
+    out = FuncInfo(fi.module, node, fi.qual, cls=fi.cls, parent=fi.parent)
+    out.nested = dict(fi.nested)
+    out.effective_of = fi
+    out.parts = list(getattr(fi, "parts", [fi.qual]))     # functions whose very statements the body is made of
+    return out
+
+
+def _wrapper_of(dec_fi):
+    """(wrapper FunctionDef, name of the wrapped-method parameter) of a decorator `def d(method): def w(self, *a, **k): ...; return w`"""
+    node = dec_fi.node
+    params = dec_fi.params
+    if len(params) != 1:
+        return None
+    body = [st for st in node.body if not (isinstance(st, ast.Expr) and isinstance(st.value, ast.Constant))]
+    if len(body) != 2 or not isinstance(body[0], ast.FunctionDef) or not isinstance(body[1], ast.Return) \
+            or not (isinstance(body[1].value, ast.Name) and body[1].value.id == body[0].name):
+        return None
+    w = body[0]
+    a = w.args
+    if a.vararg is None or a.kwarg is None or len(a.posonlyargs + a.args) != 1 or a.kwonlyargs:
+        return None
+    return w, params[0]
+
+
+def _apply_decorator(fi, dec_fi):
+    """`fi` with the wrapper of decorator `dec_fi` put around its statements: the wrapper's body, in which the tail call
+    `return method(self, *args, **kwargs)` is replaced by the statements of the method (the very nodes, so that call sites
+    and effect sites recorded for the method are found in the result).  None when the decorator is not of that shape."""
+    import copy
+    got = _wrapper_of(dec_fi)
+    if got is None:
+        return None
+    w, mparam = got
+    recv, va, kw = w.args.args[0].arg if w.args.args else w.args.posonlyargs[0].arg, w.args.vararg.arg, w.args.kwarg.arg
+    own = fi.params[0] if fi.params else None
+    if own is None or fi.is_static or fi.is_classmethod:
+        return None
+    wb = copy.deepcopy(w.body)
+
+    def is_tail(st):
+        v = st.value if isinstance(st, (ast.Return, ast.Expr)) else None
+        return isinstance(v, ast.Call) and isinstance(v.func, ast.Name) and v.func.id == mparam and len(v.args) == 2 \
+            and isinstance(v.args[0], ast.Name) and v.args[0].id == recv and isinstance(v.args[1], ast.Starred) \
+            and isinstance(v.args[1].value, ast.Name) and v.args[1].value.id == va and len(v.keywords) == 1 and v.keywords[0].arg is None \
+            and isinstance(v.keywords[0].value, ast.Name) and v.keywords[0].value.id == kw
+
+    holder = ast.Module(body=wb, type_ignores=[])
+    tails = [st for st in ast.walk(holder) if isinstance(st, ast.Return) and is_tail(st)]
+    uses = [n for n in ast.walk(holder) if isinstance(n, ast.Name) and n.id in (mparam, va, kw)]
+    if len(tails) != 1 or len(uses) != 3:
+        return None         # the wrapper looks at the arguments or calls the method more than once: not a plain wrapper
+    # nothing may follow the tail call on its way out (it is a return), so the method's own returns mean the same in its place
+    done = [False]
+    mbody = [st for st in fi.node.body]
+
+    class T(ast.NodeTransformer):
+        def generic_visit(self, n):
+            for f, v in ast.iter_fields(n):
+                if isinstance(v, list) and any(x is tails[0] for x in v):
+                    i = [k for k, x in enumerate(v) if x is tails[0]][0]
+                    setattr(n, f, v[:i] + mbody + v[i + 1:])
+                    done[0] = True
+                    return n
+            return super().generic_visit(n)
+
+    T().visit(holder)
+    if not done[0]:
+        return None
+    if recv != own:
+        class Rn(ast.NodeTransformer):
+            def visit_Name(self, n):
+                return ast.copy_location(ast.Name(id=own, ctx=n.ctx), n) if n.id == recv and not any(n is y for st in mbody for y in ast.walk(st)) else n
+        Rn().visit(holder)
+    return holder.body
+
+
+def _delegation(ck, fi):
+    """`fi` does nothing but hand the operation on to one helper of its own class that is new w.r.t. the inventory (and that
+    the inliner left as a call, e.g. because it takes *args): the helper's statements with its parameters bound first.
+    None when `fi` is not of that shape."""
+    body = [st for st in fi.node.body if not (isinstance(st, ast.Expr) and isinstance(st.value, ast.Constant))]
+    if len(body) != 1 or not isinstance(body[0], (ast.Expr, ast.Return)) or fi.cls is None:
+        return None
+    c = body[0].value
+    if not (isinstance(c, ast.Call) and isinstance(c.func, ast.Attribute) and isinstance(c.func.value, ast.Name) and fi.params and c.func.value.id == fi.params[0]):
+        return None
+    callee = ck.repo.find_method(fi.cls, c.func.attr)
+    if callee is None or callee is fi or callee.node is None or callee.qual not in _new_quals(ck) or callee.is_static or callee.is_classmethod:
+        return None
+    if any(isinstance(x, (ast.Yield, ast.YieldFrom)) for x in A.walk_body(callee.node)) or callee.node.decorator_list:
+        return None
+    a = callee.node.args
+    pos = [x.arg for x in a.posonlyargs + a.args]
+    if not pos or a.kwarg is not None or pos[0] != fi.params[0]:
+        return None
+    pos = pos[1:]
+    bind, extra = {}, []
+    for i, arg in enumerate(c.args):
+        if isinstance(arg, ast.Starred):
+            return None
+        if i < len(pos):
+            bind[pos[i]] = arg
+        else:
+            extra.append(arg)
+    if extra and a.vararg is None:
+        return None
+    for k in c.keywords:
+        if k.arg is None or (k.arg not in pos and k.arg not in [x.arg for x in a.kwonlyargs]) or k.arg in bind:
+            return None
+        bind[k.arg] = k.value
+    defaults = dict(zip(reversed([x.arg for x in a.posonlyargs + a.args]), reversed(a.defaults)))
+    for x, d in zip(a.kwonlyargs, a.kw_defaults):
+        if d is not None:
+            defaults[x.arg] = d
+    for p in pos + [x.arg for x in a.kwonlyargs]:
+        if p not in bind:
+            if p not in defaults:
+                return None
+            bind[p] = defaults[p]
+    if a.vararg is not None:
+        bind[a.vararg.arg] = ast.Tuple(elts=list(extra), ctx=ast.Load())
+    own = set(fi.params)
+    pre = []
+    for p, v in bind.items():
+        if isinstance(v, ast.Name) and v.id == p:
+            continue
+        if p in own:
+            return None      # the helper's parameter would hide one of the method's own
+        st = ast.Assign(targets=[ast.Name(id=p, ctx=ast.Store())], value=v, type_comment=None)
+        ast.copy_location(st, body[0])
+        pre.append(st)
+    return pre + list(callee.node.body)
+
+
+def effective_function(ck, fi, _depth=0):
+    """-> a FuncInfo with the same qualified name whose body is what runs when `fi` is called: wrappers of decorators that are
+    new w.r.t. the reference inventory applied, a body that only delegates to a new helper replaced by the helper's.  `fi`
+    itself when neither applies."""
+    if fi is None or fi.node is None or _depth > 3:
+        return fi
+    new = _new_quals(ck)
+    out = fi
+    body = _delegation(ck, fi)
+    if body is not None:
+        out = _synthetic(fi, body, list(fi.node.decorator_list))
+        out.parts.append(ck.repo.find_method(fi.cls, [st for st in fi.node.body if not (isinstance(st, ast.Expr) and isinstance(st.value, ast.Constant))][0].value.func.attr).qual)
+    decs = list(out.node.decorator_list)
+    for d in reversed(decs):
+        if not isinstance(d, ast.Name):
+            continue
+        # (a plain function in the class body used as a decorator there counts as well)
+        dec_fi = fi.module.functions.get(d.id) or (fi.cls.methods.get(d.id) if fi.cls is not None else None)
+        if dec_fi is None or dec_fi.qual not in new:
+            continue
+        b2 = _apply_decorator(out, dec_fi)
+        if b2 is None:
+            continue
+        out = _synthetic(out, b2, [x for x in out.node.decorator_list if x is not d])
+        out.effective_of = fi
+    if out is not fi and _depth < 3 and _delegation(ck, out) is not None:
+        return effective_function(ck, out, _depth + 1)
+    return out
